@@ -538,13 +538,23 @@ func (rw *rewriter) goStmt(x *ast.GoStmt) {
 		rw.rep.GoStmts++
 		return
 	}
-	if len(call.Args) == 0 && sideEffectFree(call.Fun) {
+	if len(call.Args) == 0 {
 		rw.edits = append(rw.edits, edit{rw.off(x.Go), rw.off(call.Fun.Pos()) - rw.off(x.Go), "verifsim.Go("})
 		rw.edits = append(rw.edits, edit{rw.off(call.Fun.End()), rw.off(call.End()) - rw.off(call.Fun.End()), ")"})
 		rw.rep.GoStmts++
 		return
 	}
-	rw.audit(x.Pos(), "go statement with arguments is outside the simulator")
+	// go f(a, b): the generic helpers evaluate function value and arguments now (as the go statement
+	// does) and run the call as a scheduler-owned task. Supported: no results, at most 4 parameters,
+	// not variadic, not a builtin.
+	if sig, ok := rw.p.TypesInfo.TypeOf(call.Fun).(*types.Signature); ok && sig.Results().Len() == 0 && !sig.Variadic() &&
+		len(call.Args) == sig.Params().Len() && len(call.Args) <= 4 && !call.Ellipsis.IsValid() {
+		rw.edits = append(rw.edits, edit{rw.off(x.Go), rw.off(call.Fun.Pos()) - rw.off(x.Go), fmt.Sprintf("verifsim.Go%d(", len(call.Args))})
+		rw.edits = append(rw.edits, edit{rw.off(call.Lparen), 1, ", "})
+		rw.rep.GoStmts++
+		return
+	}
+	rw.audit(x.Pos(), "go statement (variadic, with results, a builtin or more than 4 arguments) is outside the simulator")
 }
 
 var clockFuncs = map[string]bool{"Now": true, "Since": true, "Until": true, "Sleep": true}
